@@ -45,9 +45,19 @@ def build_world(repo_root="/repo") -> World:
     ):
         w.classes.add(c)
     pybuiltins.install(w)
+    from pyvc.sorts import LOWER, UPPER
+
+    _s = z3.String("ax_s")
+    # str.upper / str.lower are idempotent (the only facts about them used besides their value on literals)
+    w.axioms.append(z3.ForAll([_s], UPPER(UPPER(_s)) == UPPER(_s), patterns=[UPPER(UPPER(_s))]))
+    w.axioms.append(z3.ForAll([_s], LOWER(LOWER(_s)) == LOWER(_s), patterns=[LOWER(LOWER(_s))]))
+    # ... and map the empty string, and only it, to the empty string
+    w.axioms.append(z3.ForAll([_s], (z3.Length(UPPER(_s)) == 0) == (z3.Length(_s) == 0), patterns=[UPPER(_s)]))
+    w.axioms.append(z3.ForAll([_s], (z3.Length(LOWER(_s)) == 0) == (z3.Length(_s) == 0), patterns=[LOWER(_s)]))
     from . import externs_arrow, externs_duck, externs_misc, externs_sqlglot
 
     externs_misc.install(w)
+    externs_misc.install_more(w)
     externs_arrow.install(w)
     externs_duck.install(w)
     externs_sqlglot.install(w)
